@@ -121,9 +121,22 @@ impl Property for C19 {
                 if nul {
                     sc.opts.push(Opt::Null);
                 }
-                let m = rng.small(1, 12);
-                let per = *rng.pick(&[1usize, 1, 1, 2, 3]);
-                if per > 1 || rng.chance(4, 5) {
+                // empty input (nothing, blanks only, delimiters only): without -r the one
+                // invocation's outcome is the exit status
+                let m = if rng.chance(1, 12) { 0 } else { rng.small(1, 12) };
+                let mut per = *rng.pick(&[1usize, 1, 1, 2, 3]);
+                let replace = !nul && m > 0 && rng.chance(1, 7);
+                if replace {
+                    // replace mode: one invocation per line, same outcome fold
+                    per = 1;
+                    sc.opts.push(match rng.below(3) {
+                        0 => Opt::ReplI("{}".into()),
+                        1 => Opt::ReplShort,
+                        _ => Opt::ReplI("R".into()),
+                    });
+                    let r = if matches!(sc.opts.last(), Some(Opt::ReplI(x)) if x == "R") { "R" } else { "{}" };
+                    sc.cmd.push(format!("<{r}>"));
+                } else if per > 1 || rng.chance(4, 5) {
                     if !nul && rng.chance(1, 5) && per == 1 {
                         sc.opts.push(Opt::L(1));
                     } else {
@@ -134,7 +147,15 @@ impl Property for C19 {
                     sc.opts.push(Opt::R);
                 }
                 sc.input = B(gen_tokens(rng, m, nul));
-                if !nul && sc.opts.contains(&Opt::L(1)) {
+                if m == 0 {
+                    sc.input = B(match (nul, rng.below(3)) {
+                        (_, 0) => vec![],
+                        (true, _) => vec![0, 0],
+                        (false, 1) => b" \n\t \n".to_vec(),
+                        (false, _) => b"\n".to_vec(),
+                    });
+                }
+                if !nul && (replace || sc.opts.contains(&Opt::L(1))) {
                     // one argument per line
                     for b in sc.input.0.iter_mut() {
                         if *b == b' ' {
@@ -202,6 +223,12 @@ impl Property for C19 {
         }
         if exp.own_error.is_some() {
             rep.probe("own_error_expected");
+        }
+        if spec.toks.is_empty() && exp.spawns.len() == 1 {
+            rep.probe("empty_input_single_invocation");
+        }
+        if matches!(cfg.mode, crate::xargs::Mode::Replace(_)) {
+            rep.probe("replace_mode");
         }
         if sc.real.is_some() {
             rep.probe("real_child_processes");
